@@ -224,15 +224,15 @@ def bytes_(**kwargs):
 
         @staticmethod
         def _check(value):
-            if not isinstance(value, bytes):
+            if not issubclass(type(value), bytes):
                 raise ProphyError("not a bytes")
+            if type(value) is not bytes:
+                """ a subclass may print, compare and measure on its own: the field holds the plain value """
+                value = bytes.__getitem__(value, slice(None))
             if size and len(value) > size:
                 raise ProphyError("too long")
             if _bytes._LIMIT is not None and len(value) > _bytes._LIMIT:
                 raise ProphyError("too long for its sizer")
-            if type(value) is not bytes:
-                """ a subclass may print and compare on its own: the field holds the plain value """
-                value = bytes.__getitem__(value, slice(None))
             if size and not bound:
                 return value.ljust(size, b'\x00')
             return value
